@@ -1,7 +1,8 @@
 import DmrVerif.Driver.Loop
 import DmrVerif.Driver.Crc
 import DmrVerif.Driver.CrcStream
+import DmrVerif.Driver.CrcConfigs
 
 /-! model driver for property C05 -/
 
-def main : IO Unit := Dmr.Driver.runMain [Dmr.Driver.crcOp, Dmr.Driver.crcStreamOp]
+def main : IO Unit := Dmr.Driver.runMain [Dmr.Driver.crcOp, Dmr.Driver.crcStreamOp, Dmr.Driver.crcConfigsOp]
